@@ -23,7 +23,8 @@ def _lines(ctx, name):
     return l
 
 
-KEYS = [("contents changed", "c13-contents"), ("recovered contents differ", "c13-crash-contents"),
+KEYS = [("moved nothing left the file larger than it found it (tiny regions)", "c13-file-grew-noprogress-tiny-regions"),
+        ("contents changed", "c13-contents"), ("recovered contents differ", "c13-crash-contents"),
         ("made the file larger", "c13-file-grew"), ("no fixpoint", "c13-no-fixpoint"),
         ("allocated != required", "c13-leak"), ("owned twice", "c13-double-owner"),
         ("still pending free", "c13-pending-after-compaction"), ("changed the shape", "c13-shape"),
